@@ -51,6 +51,10 @@ def case_hash(case):
     return hashlib.blake2b(canon(case).encode(), digest_size=8).hexdigest()
 
 
+class HarnessError(Exception):
+    pass
+
+
 def exc_key(exc, prefix='exc'):
     """Bucket an unexpected exception by (type, innermost txdbus frame)."""
     tb = traceback.extract_tb(exc.__traceback__)
@@ -59,6 +63,9 @@ def exc_key(exc, prefix='exc'):
         fn = fr.filename.replace('\\', '/')
         if '/txdbus/' in fn and '/verif/' not in fn:
             where = '%s:%s' % (os.path.basename(fn), fr.name)
+    if where == '?' and type(exc).__name__ not in ('RefError', 'RigFailure'):
+        # no txdbus frame anywhere in the traceback: the harness itself is broken.  That is exit 2, never a VIOLATION.
+        raise HarnessError('exception outside txdbus while checking (%s): %s' % (prefix, exc_detail(exc))) from exc
     return '%s:%s@%s' % (prefix, type(exc).__name__, where)
 
 
